@@ -5,7 +5,7 @@
    (false: the pinned Append); [observe_member st k] is everything pool member k reports: topology, indices,
    materials, attribute names and all attribute values, read through its slices. *)
 From Coq Require Import List NArith ZArith Arith Lia.
-From PF Require Import Mesh.Heap Mesh.HeapProofs.
+From PF Require Import Mesh.Heap Mesh.HeapProofs Mesh.HeapCommute.
 Import ListNotations.
 
 (* For EVERY growth policy of append (no hypothesis on grow is needed, so in particular for every grow with
@@ -53,6 +53,46 @@ Theorem append_inplace_refuted :
     observe_member (run grow_double false ops t') k <> observe_member (run grow_double false ops t) k.
 Proof. exact append_inplace_refuted_proof. Qed.
 Print Assumptions append_inplace_refuted.
+
+(* Go maps are heap objects in the model: a pool member names its four attribute maps by ids into a table of maps, and
+   what it reports is read THROUGH those ids.  Along every history of the repaired tree the table only grows at its
+   end: no operation stores into a map that already exists (so immutable_history above covers "an operation writes a
+   map another mesh shares": such a write would have to change an existing entry of the table). *)
+Theorem maps_append_only : forall grow ops t t', t <= t' ->
+  exists ml, maps_of (run grow true ops t') = maps_of (run grow true ops t) ++ ml.
+Proof. exact maps_append_only_proof. Qed.
+Print Assumptions maps_append_only.
+
+(* ... and the model can express that defect: an Append that aligns the attribute sets of its operands by storing
+   zero-filled arrays into the operands' OWN maps (step_pad) changes what the receiver and everything sharing its maps
+   report. *)
+Theorem map_write_refuted :
+  exists ops k t t', t <= t' /\ k < length (pool (run_pad grow_double ops t)) /\
+    observe_member (run_pad grow_double ops t') k <> observe_member (run_pad grow_double ops t) k.
+Proof. exact map_write_refuted_proof. Qed.
+Print Assumptions map_write_refuted.
+
+(* Order independence of CONTENT.  [added grow st o] = the error class o shows in state st and the observations of the
+   meshes it creates.  For two derivations o1, o2 of a reachable state (every pool index they mention exists in it):
+   what o1 adds is the same whether o2 ran first or not, and vice versa — the two results are the same in either
+   order, up to the renaming of heap addresses and map ids that observations do not see.  (Together with
+   siblings_independent: the final pools of o1;o2 and o2;o1 report the same meshes.) *)
+Theorem derivations_commute : forall grow ops t o1 o2,
+  let st := run grow true ops t in
+  refs_below (length (pool st)) o1 -> refs_below (length (pool st)) o2 ->
+  added grow (fst (step grow true st o2)) o1 = added grow st o1 /\
+  added grow (fst (step grow true st o1)) o2 = added grow st o2.
+Proof.
+  intros grow ops t o1 o2 st R1 R2. split; apply added_after_step; auto; apply run_inv.
+Qed.
+Print Assumptions derivations_commute.
+
+(* the symmetry behind it: inserting arrays into the heap and shifting the addresses above the insertion point
+   commutes with every operation, for both Append variants and every growth policy *)
+Theorem operations_are_address_independent : forall e n grow fixed H p o, 1 < n -> n <= length H ->
+  exec grow fixed (ins e n H) (map (shm e n) p) o = shr e n (exec grow fixed H p o).
+Proof. intros. apply exec_ins; auto. Qed.
+Print Assumptions operations_are_address_independent.
 
 (* the direct oracle used on the implementation's snapshots means what it says *)
 Theorem immutableb_sound : forall (segs : list (list (nat * obs))),
